@@ -451,7 +451,7 @@ namespace rpc
         {
             iovector_view v;
             ssize_t ret = _iov->extract_front(x.summed_size, &v);
-            if (ret == (ssize_t)x.summed_size) {
+            if (ret >= 0 && (size_t)ret == x.summed_size) {
                 x.assign(v.iov, v.iovcnt);
             } else {
                 failed = true;
